@@ -3,11 +3,11 @@ package main
 func init() {
 	checks["C47"] = &checkDef{
 		Level:       levelOther,
-		Explanation: "Real _newPipe (pipe.go) including the real DoMulti/syncDoMulti, RESP codec and Close, over an in-memory connection with a scripted server goroutine. Options are chosen by decision: credentials (none, password, user+password, dynamic AuthCredentialsFn overriding static ones, failing AuthCredentialsFn), ClientName, tracking mode (default OPTIN, DisableCache, custom BCAST options), SelectDB, ReplicaOnly / ClientNoTouch / ClientNoEvict, ClientSetInfo (default, custom, disabled), AlwaysRESP2. The server is a current server (HELLO 3 → proto 3 map) or an old one (HELLO → 'unknown command', no client tracking), and may fail any one setup step with -NOAUTH or a generic -ERR. Oracle: the commands the server received, in order, equal a reference list written from the documentation (RESP3: HELLO 3 [AUTH u p] [SETNAME n], CLIENT TRACKING …, SELECT, READONLY, NO-TOUCH, NO-EVICT, CLIENT SETINFO ×2; RESP2: AUTH, HELLO 2, CLIENT SETNAME, …); RESP2 is used only after a rejected HELLO or with AlwaysRESP2, and never together with client-side caching (the connection fails with an error instead); a failing checked step (everything except READONLY and the trailing SETINFO pair) makes _newPipe return an error and close the connection; after success the first user command reaches the server only after the complete setup.",
+		Explanation: "Real _newPipe (pipe.go) including the real DoMulti/syncDoMulti, RESP codec and Close, over an in-memory connection with a scripted server goroutine. Options are chosen by decision: credentials (none, password, user+password, user with empty password, dynamic AuthCredentialsFn overriding static ones, failing AuthCredentialsFn), ClientName, tracking mode (default OPTIN, DisableCache, custom BCAST options), SelectDB, ReplicaOnly / ClientNoTouch / ClientNoEvict, ClientSetInfo (default, custom, disabled), AlwaysRESP2. The server is a current server (HELLO 3 → proto 3 map) or an old one (HELLO → 'unknown command', no client tracking), and may fail any one setup step with -NOAUTH or a generic -ERR. Oracle: the commands the server received, in order, equal a reference list written from the documentation (RESP3: HELLO 3 [AUTH u p] [SETNAME n], CLIENT TRACKING …, SELECT, READONLY, NO-TOUCH, NO-EVICT, CLIENT SETINFO ×2; RESP2: AUTH, HELLO 2, CLIENT SETNAME, …); RESP2 is used only after a rejected HELLO or with AlwaysRESP2, and never together with client-side caching (the connection fails with an error instead); a failing checked step (everything except READONLY and the trailing SETINFO pair) makes _newPipe return an error and close the connection; after success the first user command reaches the server only after the complete setup.",
 		Assumptions: []string{"delay bound 0: the handshake is sequential (one caller, one server goroutine)", "an old server (no HELLO) answers +OK to the other batch entries except CLIENT TRACKING"},
 		Trusted:     []string{"scripted server, verifConn; regexp (noHello) evaluated concretely by the host"},
 		Outside:     []string{"EnableReplicaAZInfo/INFO parsing, TLS, dial errors, AuthCredentials refresh timers, sentinel pipes (r2ps)", "more than one failing step per handshake"},
-		Bounds:      map[string]any{"quick": "5 credential modes × name × 3 tracking modes × db × 4 extras × 2 setinfo modes × AlwaysRESP2 × old/new server × (no failure | failure at step 0..2 × 2 kinds)", "thorough": "3 setinfo modes, failure at step 0..5"},
+		Bounds:      map[string]any{"quick": "6 credential modes × name × 3 tracking modes × db × 4 extras × 2 setinfo modes × AlwaysRESP2 × old/new server × (no failure | failure at step 0..2 × 2 kinds)", "thorough": "3 setinfo modes, failure at step 0..5"},
 		specs: func(tier string) []specRef {
 			pp := P{"setinfo_kinds": q(tier, int64(2), 3), "resp2_odds": q(tier, int64(2), 4), "reject_odds": q(tier, int64(2), 3), "fail_steps": q(tier, int64(3), 6)}
 			return []specRef{hsd(rootPkg, "VerifC47_newPipe", pp, 0, 3000000, 3400, "resp3", "resp2", "nocache", "stepfailed", "credsfail")}
